@@ -331,6 +331,45 @@ def space(tier):
         return {"ops": ops, "cuts": sorted({rng.randrange(1, len(s)) for _ in range(rng.choice([0, 1, 2]))}), "gap0": False}
     sp.add("every_packet_size", nsizes, sizes, exhaustive=True)
 
+    def long_stream(j, rng):
+        # dozens of packets back to back (several KiB), cut into equal-sized TCP segments that never line up with
+        # the packet boundaries
+        n = rng.choice([12, 20, 30, 40])
+        size = rng.choice([30, 104, 294, 150])
+        ops = [{"op": "packet", "payload": _payload(rng, size + rng.choice([0, 0, 1, 3]), "plain").hex()} for _ in range(n)]
+        s, _ = build_stream(ops)
+        seg = rng.choice([536, 1000, 1460, 4096, 700])
+        return {"ops": ops, "cuts": list(range(seg, len(s), seg)), "gap0": rng.random() < 0.3}
+    sp.add("long_streams_in_equal_segments", 60 if tier == "quick" else 3000, long_stream)
+
+    def huge(j, rng):
+        # size fields at the very top of their range, cut inside the last bytes (and elsewhere)
+        size = [0xFFFF, 0xFFFE, 0xFFF9, 0xFFF8, 0xFFF0, 0x8000, 0xFF00][j % 7]
+        ops = [{"op": "packet", "payload": _payload(rng, 3, "plain").hex()},
+               {"op": "packet", "payload": _payload(rng, size, "plain").hex()},
+               {"op": "packet", "payload": _payload(rng, 5, "plain").hex()}]
+        s, _ = build_stream(ops)
+        end = 11 + 8 + size                     # end of the big packet
+        cuts = sorted({end - k for k in rng.sample(range(1, 9), rng.randint(1, 2))} | ({rng.randrange(12, end)} if j % 2 else set()))
+        return {"ops": ops, "cuts": cuts, "gap0": False}
+    sp.add("largest_packets_cut_near_the_end", 14 if tier == "quick" else 140, huge)
+
+    def embedded(j, rng):
+        # a payload that contains the image of a whole packet, delivered with cuts exactly around that image
+        v = rng.choice([0, 1, 5, 16, 40])
+        inner = MK + v.to_bytes(2, "big") + b"\x20\x01" + _payload(rng, v + 2, "plain")
+        pre = _payload(rng, rng.choice([0, 3, 9]), "plain")
+        post = _payload(rng, rng.choice([0, 2, 7]), "plain")
+        ops = [{"op": "packet", "payload": (pre + inner + post).hex(), "style": "marker_hdr"},
+               {"op": "packet", "payload": _payload(rng, rng.choice([0, 4]), "plain").hex()}]
+        if rng.random() < 0.5:
+            ops.insert(0, {"op": "packet", "payload": _payload(rng, 2, "plain").hex()})
+        s, _ = build_stream(ops)
+        start = s.index(inner)
+        cuts = sorted({start, start + len(inner)} | ({rng.randrange(1, len(s))} if rng.random() < 0.3 else set()))
+        return {"ops": ops, "cuts": [c for c in cuts if 0 < c < len(s)], "gap0": False}
+    sp.add("packet_image_inside_a_payload_cut_around_it", 300 if tier == "quick" else 30_000, embedded)
+
     def lan(j, rng):
         return {"mode": "lan", "config": {"version": 3, "key": rand_bytes(rng, 32).hex(), "token": rand_bytes(rng, 64).hex()},
                 "reply": rand_bytes(rng, rng.randint(1, 60)).hex(),
